@@ -218,7 +218,7 @@ func exhaustive(t *testing.T, depth int) {
 
 // ---------------------------------------------------------------- random
 
-var idents = []string{"a", "b", "c", "A", "col_1", "x9", "Zz_0", "count", "a_", "q"}
+var idents = []string{"a", "b", "c", "A", "col_1", "x9", "Zz_0", "count", "a_", "q", "and", "or", "not", "AND", "Or", "NOT", "null", "x_", "select", "by", "in"}
 var hostile = []string{"\ufffd", "M\ufffdnchen", "say \"\ufffd\"\n", "\xc0\xa2", "a  b", "", "x", "\"", "\"\"", "\"a", "a\"", "\"a\"", "a\"\"b", "\n", "a\nb", "\r\n", "é", "日本", "💩", "\xff", "a\xffb", "\x00", " ", "  ", "\t",
 	"$1", ";", "( )", "&", "|", "^", "=", ",", "a = \"b\"", "\\", "\\\"", "'", strings.Repeat("\"", 7), strings.Repeat("q", 200)}
 
